@@ -28,6 +28,21 @@ structure DCfg where
   clientTranslatesNotFound : Bool
   deriving Repr, DecidableEq
 
+/-! ### what the model assumes of `grpc_util.handle_exception` and `_report_lookup_errors`
+(compared with the table regenerated from the source on every run, `Props/C08Table.lean`) -/
+
+/-- exception classes -> status code, in the order of the if / elif chain; anything else is UNKNOWN -/
+def assumedErrorTable : List (List String × String) :=
+  [(["ImmutableStudyError", "ImmutableTrialError"], "FAILED_PRECONDITION"),
+   (["NotFoundError"], "NOT_FOUND"), (["AlreadyExistsError"], "ALREADY_EXISTS")]
+
+/-- RPCs whose body can raise a datastore lookup error (every RPC but CreateStudy, which answers an
+    existing study instead): behind gRPC each must report it with its status code (`rawErrorsMapped`) -/
+def rpcsRaisingLookupErrors : List String :=
+  ["GetStudy", "ListStudies", "DeleteStudy", "SetStudyState", "SuggestTrials", "GetOperation", "CreateTrial", "GetTrial",
+   "ListTrials", "AddTrialMeasurement", "CompleteTrial", "DeleteTrial", "CheckTrialEarlyStoppingState", "StopTrial",
+   "ListOptimalTrials", "UpdateMetadata"]
+
 def DCfg.fixed : DCfg := { rawErrorsMapped := true, clientTranslatesNotFound := true }
 def DCfg.legacy : DCfg := { rawErrorsMapped := false, clientTranslatesNotFound := false }
 
